@@ -40,7 +40,8 @@ add("C01",
     "fixed parameters must raise ValueError; refilled buffers, bystander objects of the same class and a wide_data facet (p up to 160, "
     "units 1e-3..1e3) and a structured_batches facet (back-to-back, common-end / common-start and nested batches on series of up to 6000 samples) are "
     "included; a covariance_structures facet evaluates fixed covariances of real structure (equicorrelated, one-factor, block, channels in units 1000 .. 0.004) "
-    "against the definition in whitened units. Bounded exploration (n<=120 with p<=4, n~4p for wide data).",
+    "against the definition in whitened units; long_series_and_big_batches evaluates 100000-row series across the rows 32768 / 65536 / 98304 and single calls "
+    "with exactly 8192 / 16384 / 65536 cuts. Bounded exploration (n<=120 with p<=4, n~4p for wide data).",
     "Trusted: NumPy long double arithmetic, the error model B=32(N+1)^2 eps M^2 of DESIGN.md 3.4; ill-conditioned multivariate "
     "slices (cond>1e10) accept either outcome.",
     "DESIGN.md section 4, C01")
@@ -87,7 +88,8 @@ add("C13",
     "list/row-vector/flat-multiple arguments, mixed batches, descending unsigned rows, rows overflowing narrow signed dtypes "
     "and pandas containers; and a coverage-guided fuzzing campaign (atheris, 120k executions quick / 6.4M thorough) over a "
     "structured decoder of container x dtype x shape x values with the same oracle inside the target. The box facet is exhaustive. Two further "
-    "facets use scorers that have just raised the documented error (directly or inside a detector) or whose re-fit raised, and hold them to the same predicate.",
+    "facets use scorers that have just raised the documented error (directly or inside a detector) or whose re-fit raised, and hold them to the same predicate; "
+    "big_batches passes ~80000 cuts in ONE call (with and without one invalid row in the tail), long_series_cut_dtypes narrow / unsigned cuts on 10^5..10^6 samples.",
     "Trusted: the validity predicate written from the property and the documented minimum sizes (1, 2, p+1); fixed "
     "well-conditioned data per (n,p).",
     "DESIGN.md section 4, C13")
@@ -199,7 +201,7 @@ add("C12",
     "CAPA's result on the transformed data must attain the original optimum when re-evaluated on the original objective, "
     "threshold detectors' detections must be equal whenever the decision margin is satisfied, MVCAPA's icolumns map through "
     "the permutation; integer-typed originals on a high level, one fitted detector on a column-permuted labelled frame, a wide_data facet "
-    "(p up to 160). Bounded exploration (n<=40, p<=3; 16 wide cells).",
+    "(p up to 160) and a long_series facet (86400-140000 rows, cuts across rows 32768 / 65536 / 131072, shift and reverse). Bounded exploration (n<=40, p<=3; 16 wide cells; 9-18 long cells).",
     "Trusted: error model of DESIGN.md 3.4; near-degenerate slices (variance below 1e-8 x scale^2) are skipped for Gaussian "
     "scorers and counted.",
     "DESIGN.md section 4, C12")
